@@ -44,12 +44,15 @@ namespace
     return "\"length\":1.5e5,\"thickness\":[1e5,0.6e5],\"angle\":[45,60]";
   }
 
-  struct Layout { bool fault; unsigned n, nseg; unsigned place[4]; unsigned sigma; };   // place: 0 feature, 1 section, 2 segment
+  // place: 0 feature, 1 section, 2 segment, 3 mixed: the feature and every segment of the default list declare the models, the segments of the
+  // explicit section entries (and those entries) declare none and fall through to the feature level
+  struct Layout { bool fault; unsigned n, nseg; unsigned place[4]; unsigned sigma; };
+  const unsigned NPLACE = 4, NPLACEMENTS = 4*4*4*4;
 
   std::string layout_world(const Layout &L)
   {
     const unsigned all = (1u << L.n) - 1;
-    auto segments = [&]()
+    auto segments = [&](bool in_section = false)
     {
       std::string s = "[";
       for (unsigned i = 0; i < L.nseg; ++i)
@@ -59,7 +62,7 @@ namespace
             {
               // the second segment always carries its own temperature model: explicit segment models win over inherited ones
               if (i == 1 && k == 0) { s += ",\"temperature models\":[{\"model\":\"uniform\",\"temperature\":999}]"; continue; }
-              if (L.place[k] == 2) s += "," + models_json(L.fault, k);
+              if (L.place[k] == 2 || (L.place[k] == 3 && !in_section)) s += "," + models_json(L.fault, k);
             }
           s += "}";
         }
@@ -67,7 +70,7 @@ namespace
     };
     std::string f = std::string("{\"model\":\"") + (L.fault ? "fault" : "subducting plate") + "\",\"name\":\"F\",\"coordinates\":" + pts(trench(L.n)) + ",\"dip point\":" + DIP_POINT + ",\"segments\":" + segments();
     for (int k = 0; k < 4; ++k)
-      if (L.place[k] == 0 || (L.place[k] == 1 && L.sigma != all)) f += "," + models_json(L.fault, k);
+      if (L.place[k] == 0 || L.place[k] == 3 || (L.place[k] == 1 && L.sigma != all)) f += "," + models_json(L.fault, k);
     if (L.sigma)
       {
         f += ",\"sections\":[";
@@ -76,7 +79,7 @@ namespace
         for (int i = static_cast<int>(L.n) - 1; i >= 0; --i)
           {
             if (!(L.sigma & (1u << i))) continue;
-            f += std::string(first ? "" : ",") + "{\"coordinate\":" + std::to_string(i) + ",\"segments\":" + segments();
+            f += std::string(first ? "" : ",") + "{\"coordinate\":" + std::to_string(i) + ",\"segments\":" + segments(true);
             for (int k = 0; k < 4; ++k) if (L.place[k] == 1) f += "," + models_json(L.fault, k);
             f += "}";
             first = false;
@@ -117,7 +120,7 @@ namespace
     uint64_t r = idx;
     L.fault = r % 2; r /= 2;
     L.nseg = 1 + static_cast<unsigned>(r % 2); r /= 2;
-    for (int k = 0; k < 4; ++k) { L.place[k] = static_cast<unsigned>(r % 3); r /= 3; }
+    for (int k = 0; k < 4; ++k) { L.place[k] = static_cast<unsigned>(r % NPLACE); r /= NPLACE; }
     // remaining: (n, sigma) pairs in order
     unsigned ni = 0;
     while (r >= (1ull << ns[ni])) { r -= (1ull << ns[ni]); ++ni; }
@@ -151,7 +154,7 @@ namespace
             while (slot < got[i].size() && slot < want[i].size() && biteq(got[i][slot], want[i][slot])) ++slot;
             const std::string what = slot == SLOT_T ? "temperature" : slot < 5 ? "composition" : slot < SLOT_TAG ? "grains" : slot == SLOT_TAG ? "tag" : "velocity";
             std::string where;
-            const char *K[] = {"T", "C", "G", "V"}, *PL[] = {"feature", "section", "segment"};
+            const char *K[] = {"T", "C", "G", "V"}, *PL[] = {"feature", "section", "segment", "feature+default-segments-only"};
             for (int k = 0; k < 4; ++k) where += std::string(k ? "," : "") + K[k] + "@" + PL[L.place[k]];
             ctx.violation(std::string("C10/layout/") + (L.fault ? "fault" : "subducting plate") + "/" + what + "-differs-from-feature-level-layout",
                           JObj().str("what", "a re-layout of the same logical world answers differently").str("placement", where).integer("coordinates", L.n).integer("segments", L.nseg)
@@ -174,6 +177,8 @@ namespace
   {
     bool fault; unsigned n;
     std::vector<double> thick, length, trunc, temp, angle;
+    std::vector<double> thick2, trunc2;   // values at the lower end of the segment (two-valued thickness / top truncation)
+    std::vector<double> lengthB;          // non-empty: a second segment with the same dip, thickness and truncation, of this length
     std::vector<int> comp;   // composition painted by the section (uniform, fraction 1)
     bool additive = false;   // section models use operation add: temperature += temp[j] - 1000, composition 0 += 0.25 (j+1)
   };
@@ -183,13 +188,19 @@ namespace
     s.fault = fault; s.n = n;
     s.thick.assign(n, 1e5); s.length.assign(n, 4e5); s.trunc.assign(n, 0.0); s.angle.assign(n, 60.0);
     for (unsigned i = 0; i < n; ++i) { s.temp.push_back(1000 + 100.0 * i); s.comp.push_back(0); }
+    s.thick2 = s.thick; s.trunc2 = s.trunc;
     return s;
   }
   std::string secworld_text(const SecWorld &s)
   {
     auto seg = [&](unsigned i)
     {
-      return "[{\"length\":" + num(s.length[i]) + ",\"thickness\":[" + num(s.thick[i]) + "],\"angle\":[" + num(s.angle[i]) + "]" + (s.fault ? std::string() : ",\"top truncation\":[" + num(s.trunc[i]) + "]") + "}]";
+      const bool two = !s.lengthB.empty();
+      // with a second segment the two-valued quantities are not used (they would restart in every segment)
+      const std::string th = s.thick2[i] == s.thick[i] ? "[" + num(s.thick[i]) + "]" : "[" + num(s.thick[i]) + "," + num(s.thick2[i]) + "]";
+      const std::string tr = s.trunc2[i] == s.trunc[i] ? "[" + num(s.trunc[i]) + "]" : "[" + num(s.trunc[i]) + "," + num(s.trunc2[i]) + "]";
+      const std::string rest = ",\"thickness\":" + th + ",\"angle\":[" + num(s.angle[i]) + "]" + (s.fault ? std::string() : ",\"top truncation\":" + tr);
+      return "[{\"length\":" + num(s.length[i]) + rest + "}" + (two ? ",{\"length\":" + num(s.lengthB[i]) + rest + "}" : std::string()) + "]";
     };
     std::string f = std::string("{\"model\":\"") + (s.fault ? "fault" : "subducting plate") + "\",\"name\":\"F\",\"coordinates\":" + pts(trench(s.n)) + ",\"dip point\":" + DIP_POINT + ",\"segments\":" + seg(0) + ",\"sections\":[";
     for (unsigned i = 0; i < s.n; ++i)
@@ -203,13 +214,16 @@ namespace
   {
     SecWorld s = base_secworld(fault, n);
     s.thick.assign(n, fault ? 8e5 : 4e5); s.length.assign(n, 9e5); s.trunc.assign(n, -4e5); s.angle = angle;
+    s.thick2 = s.thick; s.trunc2 = s.trunc;
     for (unsigned i = 0; i < n; ++i) s.comp[i] = static_cast<int>(i);
     return secworld_text(s);
   }
   Request marker_request(unsigned n) { Request r; for (unsigned i = 0; i < n; ++i) r.push_back({{2,i,0}}); r.push_back({{4,0,0}}); return r; }
 
-  const char *OVERRIDES[] = {"thickness", "length", "top truncation", "uniform temperature", "composition", "dip angle"};
-  const int N_OVERRIDES = 6;
+  const char *OVERRIDES[] = {"thickness", "length", "top truncation", "uniform temperature", "composition", "dip angle", "two-valued top truncation", "two-valued thickness",
+                             "first of two segments has length zero", "second of two segments has length zero"
+                            };
+  const int N_OVERRIDES = 10;
 
   void run_sections(const std::vector<unsigned> &ns, uint64_t idx, Ctx &ctx)
   {
@@ -221,8 +235,9 @@ namespace
     unsigned ni = 0;
     while (r >= ns[ni]) { r -= ns[ni]; ++ni; }
     const unsigned n = ns[ni], k = static_cast<unsigned>(r);
-    if (fault && kind == 2) return;   // faults have no top truncation
-    const SecWorld base = base_secworld(fault, n);
+    if (fault && (kind == 2 || kind == 6)) return;   // faults have no top truncation
+    SecWorld base = base_secworld(fault, n);
+    if (kind == 8 || kind == 9) { base.length.assign(n, 1.5e5); base.lengthB.assign(n, 2.5e5); }
     SecWorld var = base;
     if (kind == N_OVERRIDES + 1) { var.additive = true; if (k != 0) return; }
     if (kind == 0) var.thick[k] = 1.6e5;
@@ -231,6 +246,10 @@ namespace
     if (kind == 3) var.temp[k] = 2000;
     if (kind == 4) var.comp[k] = 1;
     if (kind == 5) var.angle[k] = 35;
+    if (kind == 6) { var.trunc[k] = 0.1e5; var.trunc2[k] = 0.5e5; }
+    if (kind == 7) { var.thick[k] = 0.7e5; var.thick2[k] = 1.7e5; }
+    if (kind == 8) { var.length[k] = 0; var.lengthB[k] = 3e5; }
+    if (kind == 9) { var.lengthB[k] = 0; var.length[k] = 2e5; }
     const std::string base_text = secworld_text(base), var_text = secworld_text(var);
     auto wb = make_world(base_text, 1, "b"), wv = make_world(var_text, 1, "v");
     // section weights come from classifier worlds with the same trench and the same dip tables
@@ -294,13 +313,20 @@ namespace
           World &w = *wv;
           if (m[n] >= 0)
             {
-              double thick = 0, len = 0, trunc = 0, temp = 0, c0 = 0, c1 = 0;
-              for (unsigned j = 0; j < n; ++j) { thick += m[j]*s.thick[j]; len += m[j]*s.length[j]; trunc += m[j]*s.trunc[j]; temp += m[j]*s.temp[j]; (s.comp[j] == 0 ? c0 : c1) += m[j]; }
+              double thick = 0, len = 0, trunc = 0, temp = 0, c0 = 0, c1 = 0, thick2 = 0, trunc2 = 0;
+              for (unsigned j = 0; j < n; ++j)
+                {
+                  thick += m[j]*s.thick[j]; thick2 += m[j]*s.thick2[j]; trunc += m[j]*s.trunc[j]; trunc2 += m[j]*s.trunc2[j]; temp += m[j]*s.temp[j]; (s.comp[j] == 0 ? c0 : c1) += m[j];
+                  len += m[j]*(s.length[j] + (s.lengthB.empty() ? 0.0 : s.lengthB[j]));
+                }
               const auto pd = w.distance_to_plane(p, q.depth, "F");
               const double dfrom = pd.get_distance_from_surface(), dalong = pd.get_distance_along_surface();
               if (std::isfinite(dfrom) && std::isfinite(dalong))
                 {
-                  const double lo = fault ? -0.5 * thick : trunc, hi = fault ? 0.5 * thick : thick;
+                  // two-valued quantities vary linearly along the (single) segment
+                  const double sfrac = len > 0 ? std::min(1.0, std::max(0.0, dalong / len)) : 0.0;
+                  const double thick_l = thick + sfrac * (thick2 - thick), trunc_l = trunc + sfrac * (trunc2 - trunc);
+                  const double lo = fault ? -0.5 * thick_l : trunc_l, hi = fault ? 0.5 * thick_l : thick_l;
                   const double margin = std::min(std::min(std::fabs(dfrom - lo), std::fabs(dfrom - hi)), std::min(std::fabs(dalong), std::fabs(dalong - len)));
                   if (margin < 1e-3) ctx.count(c_skip);
                   else
@@ -345,9 +371,9 @@ int main(int argc, char **argv)
   Spec spec;
   spec.property = "C10";
   spec.level = "exploration";
-  spec.rule = "suite layouts: full product {slab, fault} x {1,2} segments x placement of each of the four model kinds in {feature, section entries, every segment} (3^4) x every subset of coordinates carrying an explicit section entry "
-              "(2^n, n = 2,3 | 2,3,4); every layout is compared bit-for-bit with the feature-level layout of the same logical world. suite sections: {slab, fault} x n coordinates x overridden coordinate k x override kind "
-              "{thickness, length, top truncation, uniform temperature, composition, dip angle, none, none with additive (operation add) section models}; section weights are read through classifier worlds whose section j paints composition j. "
+  spec.rule = "suite layouts: full product {slab, fault} x {1,2} segments x placement of each of the four model kinds in {feature, section entries, every segment, feature + default segments only (explicit sections fall through to the feature)} (4^4) x every subset of coordinates carrying an explicit section entry "
+              "(2^n, n = 2,3 | 2,3,4,5); every layout is compared bit-for-bit with the feature-level layout of the same logical world. suite sections: {slab, fault} x n coordinates x overridden coordinate k x override kind "
+              "{thickness, length, top truncation, uniform temperature, composition, dip angle, two-valued top truncation, two-valued thickness, first / second of two segments with length zero at that coordinate, none, none with additive (operation add) section models}; section weights are read through classifier worlds whose section j paints composition j. "
               "non-trivial: more than 20 probes inside the feature (layouts) / the override changed at least one probe (sections)";
   spec.assumptions = {"the trench parameter of a probe is observed, not computed: a classifier world with the same trench and dips paints composition j in section j, so the returned compositions are the interpolation weights",
                       "locality: a probe with zero weight on the overridden section must answer bit-identically; extent: membership must equal top truncation <= distance from plane <= thickness and 0 <= distance along plane <= length with the three quantities interpolated with the observed weights (probes within 1 mm of a limit are skipped and counted)",
@@ -360,20 +386,20 @@ int main(int argc, char **argv)
   {
     const bool th = tier == "thorough";
     static std::vector<unsigned> ns, ns2;
-    ns = th ? std::vector<unsigned>{2, 3, 4} : std::vector<unsigned>{2, 3};
-    ns2 = th ? std::vector<unsigned>{2, 3, 4, 5} : std::vector<unsigned>{3, 4};
+    ns = th ? std::vector<unsigned>{2, 3, 4, 5} : std::vector<unsigned>{2, 3};
+    ns2 = th ? std::vector<unsigned>{2, 3, 4, 5, 6} : std::vector<unsigned>{3, 4};
     uint64_t subsets = 0, ks = 0;
     for (unsigned n : ns) subsets += 1ull << n;
     for (unsigned n : ns2) ks += n;
     std::vector<Suite> s(2);
     s[0].name = "layouts";
-    s[0].n = 2 * 2 * 81 * subsets;
+    s[0].n = 2 * 2 * NPLACEMENTS * subsets;
     s[0].run = [](uint64_t i, Ctx &c) { run_layout(ns, i, c); };
-    s[0].bound = "{slab, fault} x {1, 2} segments x 3^4 placements x all subsets of coordinates with explicit sections for n in " + std::string(th ? "{2,3,4}" : "{2,3}") + " coordinates";
+    s[0].bound = "{slab, fault} x {1, 2} segments x 4^4 placements x all subsets of coordinates with explicit sections for n in " + std::string(th ? "{2,3,4,5}" : "{2,3}") + " coordinates";
     s[1].name = "sections";
     s[1].n = 2 * (N_OVERRIDES + 2) * ks;
     s[1].run = [](uint64_t i, Ctx &c) { run_sections(ns2, i, c); };
-    s[1].bound = "{slab, fault} x 8 kinds (6 overrides, none, none with additive section models) x every coordinate k of trenches with n in " + std::string(th ? "{2,3,4,5}" : "{3,4}") + " coordinates";
+    s[1].bound = "{slab, fault} x 12 kinds (10 overrides, none, none with additive section models) x every coordinate k of trenches with n in " + std::string(th ? "{2,3,4,5,6}" : "{3,4}") + " coordinates";
     return s;
   });
 }
